@@ -21,7 +21,7 @@ COMPONENTS = {"real": ["pyjelly generic serializer (stream_frames, flat_/grouped
               "stub": ["byte channel (simkit.pipe)", "input iterator / output sink"]}
 ASSUMPTIONS = ["inputs and configurations are sampled, not enumerated",
                "first raw read delivers >=3 bytes (shorter first reads are C09's subject)"]
-PROBES = ["evictions", "zero_prefix_tables", "zero_datatype_tables", "quoted_depth2", "nondelimited",
+PROBES = ["empty_sequences", "evictions", "zero_prefix_tables", "zero_datatype_tables", "quoted_depth2", "nondelimited",
           "physical_GRAPHS", "physical_QUADS", "interleaved_runs"]
 SHRINK_LISTS = ["ops"]
 
@@ -68,6 +68,14 @@ def fit_tables(rng, stmts, nss, sizes, physical):
 
 
 def generate(rng, run, tier):
+    plan = gen_plan(rng, run, tier)
+    if rng.random() < 0.004 and plan["cfg"]["entry"] in ("frames_gen", "flat_file", "flat_frames"):
+        plan["ops"] = []        # the empty sequence is a finite statement sequence too (C01 only)
+    return plan
+
+
+def gen_plan(rng, run, tier):
+    """Plan generator shared with the other checks (never empty)."""
     physical = rng.choice(["TRIPLES", "TRIPLES", "QUADS", "GRAPHS"])
     entry = rng.choice(ENTRIES)
     if entry in ("flat_file", "flat_frames", "grouped_file", "sink_serialize") and physical == "GRAPHS":
@@ -210,8 +218,10 @@ def execute(plan, sim):
     if serr is not None:
         return [{"clause": "C01.serialize_raised", "sig": {"exc": type(serr).__name__},
                  "msg": f"serializer raised {type(serr).__name__}: {serr}"}], None
+    if not stmts:
+        sim.count("empty_sequences")
     if perr is not None:
-        return [{"clause": "C01.parse_raised", "sig": {"exc": type(perr).__name__},
+        return [{"clause": "C01.parse_raised", "sig": {"exc": type(perr).__name__, "empty_input": not stmts},
                  "msg": f"parser raised {type(perr).__name__}: {perr}"}], None
     if cfg["physical"] == "TRIPLES" and plan["consumer"] != "flat":
         pass
